@@ -146,9 +146,10 @@ func parseContractFile(path, pkgPath string, ps *PkgSpec) error {
 		case "ghost":
 			// ghost field Msg.seq Int
 			fs := strings.Fields(rest)
-			if len(fs) == 3 && fs[0] == "field" {
-				tf := strings.SplitN(fs[1], ".", 2)
-				ps.Ghosts = append(ps.Ghosts, GhostField{tf[0], tf[1], fs[2]})
+			if len(fs) >= 3 && fs[0] == "field" {
+				// ghost field [pkgpath.]Type.field Sort...
+				i := strings.LastIndex(fs[1], ".")
+				ps.Ghosts = append(ps.Ghosts, GhostField{fs[1][:i], fs[1][i+1:], strings.Join(fs[2:], " ")})
 			} else {
 				return fmt.Errorf("%s:%d: bad ghost declaration", path, lineNo)
 			}
